@@ -4,6 +4,7 @@ import (
 	"fmt"
 	"math/rand"
 	"os"
+	"sort"
 
 	segment "github.com/blevesearch/scorch_segment_api/v2"
 
@@ -363,6 +364,40 @@ func runMergePlan(c *Ctx, i int, rng *rand.Rand, class string, slice int) {
 		}
 		desc.Steps = append(desc.Steps, ds+fmt.Sprintf("] mode %d", st.mode))
 		pool++
+	}
+	if class == "tall" && vec && slice == sliceVec && len(steps) == 1 {
+		// the number of surviving vectors of one field sits next to 1000, where
+		// the class of the merged index switches (exact below, clustered from 1000)
+		target := []int{1000, 1001, 999, 0}[(i/len(planClasses)/c.N(4, 3))%4]
+		var fields []string
+		for f := range steps[0].mm.Vec {
+			fields = append(fields, f)
+		}
+		sort.Strings(fields)
+		if target > 0 && len(fields) > 0 {
+			st := &steps[0]
+			inputOf := map[int]int{}
+			for k, in := range st.inputs {
+				inputOf[in] = k
+			}
+			ok := model.TrimVectors(batches, fields[0], func(bi, di int) bool {
+				k, isIn := inputOf[bi]
+				return isIn && !st.drops[k][uint32(di)]
+			}, target)
+			var ims []*model.Seg
+			for l, b := range batches {
+				poolModels[l] = model.Build(b)
+			}
+			for _, in := range st.inputs {
+				ims = append(ims, poolModels[in])
+			}
+			st.mm, st.wantNums = model.Merge(ims, st.drops)
+			poolModels[len(poolModels)-1] = st.mm
+			if ok {
+				desc.Steps = append(desc.Steps, fmt.Sprintf("field %q: exactly %d surviving vectors", fields[0], target))
+				defer c.R.Inc(fmt.Sprintf("merges_with_%d_surviving_vectors", target), 1)
+			}
+		}
 	}
 	if !c.Case(id, desc) {
 		return
